@@ -51,6 +51,9 @@ type Harness struct {
 	LeakOK bool
 	// NoBubble runs Exec directly (pure discrete-event harnesses with their own clock).
 	NoBubble bool
+	// WarmUps: number of fixed warm-up runs per process (default 12); they should cover every
+	// stratum of the generator so that lazily initialised state of dependencies is populated.
+	WarmUps int
 	// Isolate: collect garbage twice before every run, which empties all sync.Pools, so that a
 	// run's behaviour does not depend on the runs before it (needed when the code under test or
 	// its dependencies pool objects whose reuse changes the number of PRNG draws, e.g. quic-go).
@@ -322,7 +325,12 @@ func Main(t *testing.T, hs ...*Harness) {
 // identically in every process: a run must behave the same whether it is the first of a process
 // (replay) or the ten-thousandth (search). `./check selftest` measures exactly this.
 func (h *Harness) warmUp(t *testing.T) {
-	for _, s := range []uint64{0x5eed0001, 0x5eed0002, 0x5eed0003} {
+	n := h.WarmUps
+	if n == 0 {
+		n = 12
+	}
+	for i := 0; i < n; i++ {
+		s := uint64(0x5eed0001 + i)
 		h.runOne(t, s, h.Gen(NewRand(s, StreamGen), h.tier), nil, false)
 	}
 	runtime.GC()
